@@ -1171,6 +1171,9 @@ class Tuple(Parameter):
                 f"{_validate_error_prefix(self, 'length')} must be "
                 "specified if no default is supplied."
             )
+        elif length is not Undefined and length is not None:
+            # An explicitly declared length is a constraint on the default too
+            self.length = length
         elif default is not Undefined and default:
             self.length = len(default)
         else:
